@@ -8,7 +8,7 @@ from ..cfg import NORMAL, Node, handler_classes
 from ..core import Ctx
 from ..flow import ALL, find_path, names_in
 from ..model import AnalysisError, FunctionInfo, dotted, norm_text
-from .common import (edge_target, handler_exits, handler_nodes, hint_write_nodes, in_handler, is_const, kwarg,
+from .common import (known_null_call, edge_target, handler_exits, handler_nodes, hint_write_nodes, in_handler, is_const, kwarg,
                      reachable_from)
 
 EXPLANATION = (
@@ -111,14 +111,7 @@ def r3(ctx: Ctx) -> None:
     ti = ctx.fn("transaction.Table.__init__")
     g = ctx.cfg(ti)
     init_calls = ctx.calls(ti, name="_initialize_table")
-    brs = [b for b in g.nodes if b.kind == "branch" and "refresh" in b.text]
-    ok = False
-    for b in brs:
-        t = edge_target(g, b, "true" if "is None" in b.text else "false")
-        fl = edge_target(g, b, "false" if "is None" in b.text else "true")
-        if t is not None and all(c.id in reachable_from(g, t, NORMAL) for c in init_calls) and \
-                (fl is None or not any(c.id in reachable_from(g, fl, NORMAL) for c in init_calls)):
-            ok = True
+    ok = all(known_null_call(ctx, ti, c, "refresh") for c in init_calls)
     ctx.ob("C18.R3", ti, "initialise only when no metadata is readable", init_calls[0] if init_calls else None,
            ok and bool(init_calls), "the recovery-aware refresh() decides, not a directory probe")
     it = ctx.fn("transaction.Table._initialize_table")
@@ -175,15 +168,30 @@ def r5(ctx: Ctx) -> None:
     dom = ctx.dom(ad, NORMAL)
     rs = [n for n in g.calls() if any(t.name == "_resolve_table_schema" for t in ctx.eff.callees(ad, n))]
     writes = ctx.calls(ad, name="write_data_file")
-    ok = False
-    for b in [b for b in g.nodes if b.kind == "branch" and norm_text(b.ast) == "schema is None"]:
-        t = edge_target(g, b, "true")
+    # variables holding the resolver's result, the defining statements, and the None-guards on them
+    rdefs = [n for n in g.nodes if n.kind == "stmt" and isinstance(n.ast, ast.Assign) and rs
+             and any(n.ast.value is r.ast for r in rs) and len(n.ast.targets) == 1 and isinstance(n.ast.targets[0], ast.Name)]
+    rvars = {n.ast.targets[0].id for n in rdefs}  # type: ignore[union-attr]
+    guards = []
+    for b in g.nodes:
+        if b.kind != "branch" or b.ast is None:
+            continue
+        null_lab = None
+        if isinstance(b.ast, ast.Compare) and len(b.ast.ops) == 1 and isinstance(b.ast.left, ast.Name) and b.ast.left.id in rvars \
+                and isinstance(b.ast.comparators[0], ast.Constant) and b.ast.comparators[0].value is None:
+            null_lab = "true" if isinstance(b.ast.ops[0], ast.Is) else ("false" if isinstance(b.ast.ops[0], ast.IsNot) else None)
+        elif isinstance(b.ast, ast.Name) and b.ast.id in rvars:
+            null_lab = "false"
+        if null_lab is None:
+            continue
+        t = edge_target(g, b, null_lab)
         if t is None:
             continue
         reach = reachable_from(g, t, NORMAL)
-        raises = [g.nodes[x] for x in reach if g.nodes[x].kind == "raise"]
-        if rs and rs[0].id in dom[b.id] and raises and not any(w.id in reach for w in writes):
-            ok = True
+        if any(g.nodes[x].kind == "raise" for x in reach) and not any(w.id in reach for w in writes):
+            guards.append(b)
+    ok = bool(rdefs) and bool(writes) and bool(guards) and all(
+        find_path(g, d.id, [w.id], avoid=[b.id for b in guards], labels=NORMAL) is None for d in rdefs for w in writes)
     ctx.ob("C18.R5", ad, "no schema anywhere -> ValueError before anything is written", rs[0] if rs else None, ok,
            "appending without a schema would silently discard all record fields")
     rf = ctx.fn("transaction.Transaction._resolve_table_schema")
